@@ -31,6 +31,7 @@ class Opts:
         self.p_through = 0.15
         self.p_passthrough = 0.2
         self.p_deep_link = 0.3
+        self.p_fraction_param = 0.3     # numeric arithmetic/geometric sequence parameters that are half-integers
         self.p_port_sym_in_resource = 0.4   # a resource of a node mentions one of the node's port-size symbols
         self.p_multi_deep_link = 0.3   # one source linked to several parameters nested inside the same child
         self.p_fault_size = 0.0     # probability of deliberately contradicting a size
@@ -207,13 +208,19 @@ def _fill_repetition(rng, node, scope, opts):
             return E.sym(rng.choice(scope))
         return E.num(rng.randint(lo, hi))
 
+    def parq(lo, hi):
+        # now and then a half-integer (rendered as the text "3/2" or as the NUMBER 1.5, see Rendered.s)
+        if not (symbolic and scope) and rng.random() < opts.p_fraction_param:
+            return E.num(Fraction(2 * rng.randint(lo, hi) + 1, 2))
+        return par(lo, hi)
+
     count = par(1, 5)
     if kind == "constant":
         seq = {"type": "constant", "multiplier": par(1, 3)}
     elif kind == "arithmetic":
-        seq = {"type": "arithmetic", "initial_term": par(0, 3), "difference": par(1, 3)}
+        seq = {"type": "arithmetic", "initial_term": parq(0, 3), "difference": parq(1, 3)}
     elif kind == "geometric":
-        seq = {"type": "geometric", "ratio": par(2, 3)}
+        seq = {"type": "geometric", "ratio": parq(2, 3)}
     elif kind == "closed_form":
         # the placeholder is a bound name of the formula: now and then it is spelled like a name of an outer scope
         tn = "T_n"
@@ -629,6 +636,10 @@ class Rendered:
     def s(self, t, as_int_ok=True):
         if t[0] == "num" and t[1].denominator == 1 and as_int_ok:
             v = int(t[1])
+            self.tree_of[str(v)] = t
+            return v
+        if t[0] == "num" and t[1].denominator == 2 and as_int_ok and len(self.tree_of) % 2 == 0:
+            v = float(t[1])           # exactly representable: a document may hold the number 1.5 as well as the text "3/2"
             self.tree_of[str(v)] = t
             return v
         st = E.to_str(t)
